@@ -1,6 +1,6 @@
 From Coq Require Import ZArith List Bool Reals Lra.
 From Flocq Require Import Core BinarySingleNaN.
-Require Import GV.FloatBase GV.FloatLemmas GV.AngleM GV.AngleProofs GV.GeonumM GV.GeonumProofs GV.TraitsM.
+Require Import GV.FloatBase GV.FloatLemmas GV.AngleM GV.AngleProofs GV.GeonumM GV.GeonumProofs GV.TraitsM GV.NewProofs GV.CtorProofs GV.PiBounds GV.TrigProofs.
 Open Scope R_scope.
 Require Import GV.Properties.C15.
 Check C15_cos_encoding : forall (L : libm) a, fin (cosF L (grade_angle a)) ->
@@ -16,3 +16,15 @@ Print Assumptions C15_tan.
 Check C15_adj_opp : forall (L : libm) g,
   adj L g = gscale (gcos L (ang g)) (mag g) /\ opp L g = gscale (gsin L (ang g)) (mag g).
 Print Assumptions C15_adj_opp.
+Check C15_cos_value : forall (L : libm) (u : R) a, cos_acc L u -> canonp (rem a) ->
+  let v := cosF L (grade_angle a) in
+  fin v /\ Rabs (R_ v - cos (dir a)) <= u + 25 / 10000000000000000 /\
+  gcos L a = {| mag := fabs v; ang := {| rem := zero; blade := if Rlt_bool (R_ v) 0 then 2 else 0 |} |}.
+Print Assumptions C15_cos_value.
+Check C15_sin_value : forall (L : libm) (u : R) a, sin_acc L u -> canonp (rem a) ->
+  let v := sinF L (grade_angle a) in
+  fin v /\ Rabs (R_ v - sin (dir a)) <= u + 25 / 10000000000000000 /\
+  gsin L a = {| mag := fabs v; ang := {| rem := zero; blade := if Rlt_bool (R_ v) 0 then 3 else 1 |} |}.
+Print Assumptions C15_sin_value.
+Check C15_acc_inhabited : cos_acc ideal_libm (/ 4503599627370496) /\ sin_acc ideal_libm (/ 4503599627370496).
+Print Assumptions C15_acc_inhabited.
